@@ -977,6 +977,14 @@ func (fv *FV) callWriteComps(x *ast.CallExpr) ([]string, bool) {
 		}
 	}
 	fn, _, isIface := fv.calleeOf(x)
+	if fn != nil && strings.Contains(fn.FullName(), "storage/mkvs.KeyValueTree).") || fn != nil && strings.Contains(fn.FullName(), "storage/mkvs.ImmutableKeyValueTree).") {
+		switch fn.Name() {
+		case "Insert", "Remove":
+			return []string{regSort(kvDom, idxRef, arrSort(sInt, sBool)), regSort(kvVal, idxRef, arrSort(sInt, sInt)), regSort(kvWrites, idxRef, sInt)}, false
+		case "Get":
+			return nil, false
+		}
+	}
 	if fn == nil || isIface {
 		return nil, true
 	}
